@@ -306,6 +306,52 @@ func init() {
 				}
 			}
 		}
+		// every tree of depth 2 over a small pool (string / int / float variables and literals) and the
+		// arithmetic, comparison and equality operators, in both nestings: chains of one operator whose
+		// head is a string VARIABLE included (s + 1 + 2 appends 1 then 2)
+		{
+			pool2 := []*xnode{{leaf: "vs", val: "str"}, {leaf: `"a"`, val: "a"}, {leaf: "1", val: 1}, {leaf: "2", val: 2}, {leaf: "vi", val: 3}, {leaf: "1.5", val: 1.5}}
+			ops2 := []string{"+", "-", "*", "/", "<", "=="}
+			judge2 := func(n *xnode) {
+				v, class := refRun(n)
+				if class == "UNSPEC" {
+					return
+				}
+				src := n.print(0, e.Rng)
+				o := runRender(RCase{Tmpl: "<%= " + src + " %>", Binds: binds})
+				e.rep.Evaluations++
+				e.Count("render-d2")
+				rp := map[string]interface{}{"expr": src, "observed": o, "reference": fmt.Sprint(v), "reference_class": class}
+				if class == "ERR" {
+					if o.Class != "ERR" {
+						e.Violate("c06-ref", fmt.Sprintf("%s: documented to be an error, rendered %q (%s)", src, o.Out, o.Class), rp)
+					}
+					return
+				}
+				want := ""
+				if v != nil {
+					want = template.HTMLEscapeString(fmt.Sprint(v))
+				}
+				if o.Class != "OK" || o.Out != want {
+					e.Violate("c06-ref", fmt.Sprintf("%s: rendered %q (%s), reference value %q", src, o.Out, o.Class, want), rp)
+				}
+			}
+			for _, a := range pool2 {
+				for _, b := range pool2 {
+					for _, c := range pool2 {
+						for _, o1 := range ops2 {
+							for _, o2 := range ops2 {
+								judge2(&xnode{op: o2, l: &xnode{op: o1, l: a, r: b}, r: c})
+								if !e.Thorough() && o1 != o2 {
+									continue
+								}
+								judge2(&xnode{op: o1, l: a, r: &xnode{op: o2, l: b, r: c}})
+							}
+						}
+					}
+				}
+			}
+		}
 		for _, a := range leaves {
 			judge("d1", &xnode{op: "!", l: a})
 			for _, b := range leaves {
